@@ -63,6 +63,7 @@ pub const K_BLOCKED: u8 = 2;
 pub const K_POINT: u8 = 3;
 pub const K_END: u8 = 4;
 pub const K_START: u8 = 5;
+pub const K_FINE: u8 = 6;
 
 struct Inner {
     active: bool,
@@ -154,7 +155,11 @@ impl Inner {
             return Some(r[0]);
         }
         let me_runnable = r.contains(&me);
-        let choice = if let Some(rep) = &self.replay {
+        let choice = if self.replay.is_none() && kind == K_FINE {
+            // an instruction-level preemption that does not switch threads would be wasted
+            let others: Vec<usize> = r.iter().copied().filter(|&t| t != me).collect();
+            if others.is_empty() { me } else { others[self.rng.below(others.len() as u64) as usize] }
+        } else if let Some(rep) = &self.replay {
             let c = rep.get(self.replay_pos).map(|&x| x as usize);
             self.replay_pos += 1;
             match c {
@@ -336,6 +341,10 @@ fn site_id(g: &mut Inner, site: &'static str) -> u32 {
 
 /// A scheduling point reached by harness code or (through the /repo seam) by roto.
 pub fn point(site: &'static str) {
+    point_kind(site, K_POINT)
+}
+
+fn point_kind(site: &'static str, kind: u8) {
     let me = tid();
     if me == usize::MAX {
         return;
@@ -348,8 +357,8 @@ pub fn point(site: &'static str) {
     }
     let sid = site_id(&mut g, site);
     *g.max_sites.entry(site).or_insert(0) += 1;
-    g.event(me, K_POINT, sid);
-    s.hand_over(g, me, K_POINT);
+    g.event(me, kind, sid);
+    s.hand_over(g, me, kind);
 }
 
 pub fn set_label(label: &str) {
@@ -610,7 +619,7 @@ extern "C" fn trap_handler(_sig: libc::c_int, _info: *mut libc::siginfo_t, uctx:
         FINE_ON.with(|c| c.set(false));
         uc.uc_mcontext.gregs[libc::REG_EFL as usize] &= !TF;
         FINE_FIRED.fetch_add(1, Relaxed);
-        point("fine-preempt");
+        point_kind("fine-preempt", K_FINE);
     }
 }
 
